@@ -163,13 +163,15 @@ namespace pika {
             // Effect: locks the state
             PIKA_EXPORT void lock() noexcept;
 
+#if defined(PIKA_VERIF)
             void unlock() noexcept
             {
-#if defined(PIKA_VERIF)
                 PIKA_VERIF_POINT(1411, this);
-#endif
                 state_.fetch_sub(locked_flag, std::memory_order_release);
             }
+#else
+            void unlock() noexcept { state_.fetch_sub(locked_flag, std::memory_order_release); }
+#endif
 
         private:
             friend struct scoped_lock_if_not_stopped;
